@@ -62,6 +62,22 @@ def pick_params(rng, desc):
     return p
 
 
+def pick_tz(rng, scn, desc):
+    """The verifier's local time zone is part of the environment of every verification (expiry is an instant, not a
+    wall-clock reading): mostly unset, sometimes far west or far east of UTC."""
+    scn.tz = rng.choice([None, None, "UTC", "Etc/GMT+12", "Etc/GMT+12", "Pacific/Kiritimati"])
+    desc["tz"] = scn.tz
+
+
+NOW = datetime.datetime(2030, 6, 15, 12, 0, 0, tzinfo=datetime.timezone.utc)      # the clock of every scenario (world.Scenario)
+
+
+def expired_instant(rng):
+    """An expiry date in the past of the scenario's clock: by a second, by less than any UTC offset, by years."""
+    return NOW - rng.choice([datetime.timedelta(seconds=1), datetime.timedelta(minutes=45), datetime.timedelta(hours=7),
+                             datetime.timedelta(hours=11, minutes=59), datetime.timedelta(days=400)])
+
+
 def run_case(scn, desc, res, nontrivial=True):
     """Runs implementation and model, records the case and any disagreement.
     Returns (impl, model, agreed)."""
